@@ -19,7 +19,7 @@ META = {
                    "path and untransformed (no value-dependent shortcut, no normalisation of keys), containing all identifying fields "
                    "and not the hash; Manager is pickled through __dict__: its attributes are plain per-instance containers whose "
                    "default_factory is a module-level name, there is no class-level mutable state, and it defines no "
-                   "__getstate__/__setstate__/__reduce__ that could rebuild indices differently (multiplicities of RefCount matter).",
+                   "__getstate__/__setstate__/__reduce__ that could rebuild indices differently (multiplicities of RefCount matter). No object of a class whose __getattr__ recurses on a half-built instance is kept in the manager's attributes.",
     "decides": "reduce tuple <-> constructor signature agreement for all node classes; pickle-safety of Manager's attributes",
     "not_decided": "behavioural equivalence of the restored copy; independence (follows from pickle's semantics)",
     "assumptions": ["pickle reconstructs cdef classes by calling type(*args), which runs the __cinit__ chain"],
